@@ -815,7 +815,10 @@ def encFactorCT (s : St) : CM Val := do
 def encLastValuesCT (n : Nat) (s : St) : CM (List Val) := do
   let l ← encLastValuesCX n s
   if n = 0 ∨ s.forced.isEmpty then .error .other
-  else if s.forced.all (fun g => zeroMask ((g.2.take n).reverse) == zeroMask l) then pure l
+  else if s.forced.all (fun g => zeroMask ((g.2.take n).reverse) == zeroMask l) then
+    -- since the repair of finding F24b the compressed decoder insists on literally equal bit-maps
+    (if s.forced.all (fun g => lastSlice n g.2 == lastSlice n (s.forced.headD (0, [])).2) then pure l
+     else .error .other)
   else .error .other
 
 /-- The compressed encoder CHECKED FOR TRANSPARENCY.  It is `encPrimsC` with ghost rows
@@ -830,7 +833,8 @@ def encLastValuesCT (n : Nat) (s : St) : CM (List Val) := do
        `encPrimsUX`) a factor whose field does not read back as supplied;
     5. (as `encPrimsCX`) bitmaps whose zero entries differ between subsets, and (as `encPrimsUX`)
        bitmap entries that read back zero at other positions than supplied; a bitmap of length
-       zero (unreachable).
+       zero (unreachable); bitmaps that do not read back literally equal in all subsets (the repaired
+       decoder of finding F24b refuses them).
     NOT refused (no longer, since the repair of finding F18 = `encIntColumnN`): a present value that
     is the all-ones pattern of its field — both forms read it back as missing.
     A column whose spread does not fit the 6-bit increment width (`Spec.SpanOK`) needs no refusal:
@@ -922,9 +926,10 @@ theorem ct_encFactorCX_ok {s : St} {v : Val} (h : encFactorCX s = .ok v) : encFa
       · cases h; rfl
       · cases h
 
-theorem ct_encLastValuesCT_ok {s : St} {n : Nat} {l : List Val} (h : encLastValuesCT n s = .ok l) :
-    encLastValuesCX n s = .ok l ∧ n ≠ 0 ∧ s.forced ≠ [] ∧
-      (s.forced.all (fun g => zeroMask ((g.2.take n).reverse) == zeroMask l)) = true := by
+theorem ct_encLastValuesCT_ok' {s : St} {n : Nat} {l : List Val} (h : encLastValuesCT n s = .ok l) :
+    (encLastValuesCX n s = .ok l ∧ n ≠ 0 ∧ s.forced ≠ [] ∧
+      (s.forced.all (fun g => zeroMask ((g.2.take n).reverse) == zeroMask l)) = true) ∧
+      (s.forced.all (fun g => lastSlice n g.2 == lastSlice n (s.forced.headD (0, [])).2)) = true := by
   unfold encLastValuesCT at h
   cases hv : encLastValuesCX n s with
   | error e => simp only [hv, bind, Except.bind] at h; cases h
@@ -935,10 +940,18 @@ theorem ct_encLastValuesCT_ok {s : St} {n : Nat} {l : List Val} (h : encLastValu
     · rename_i hno
       split at h
       · rename_i hall
-        cases h
-        refine ⟨rfl, fun h0 => hno (Or.inl h0), fun hnil => hno (Or.inr ?_), hall⟩
-        rw [hnil]; rfl
+        split at h
+        · rename_i hlit
+          cases h
+          refine ⟨⟨rfl, fun h0 => hno (Or.inl h0), fun hnil => hno (Or.inr ?_), hall⟩, hlit⟩
+          rw [hnil]; rfl
+        · cases h
       · cases h
+
+theorem ct_encLastValuesCT_ok {s : St} {n : Nat} {l : List Val} (h : encLastValuesCT n s = .ok l) :
+    encLastValuesCX n s = .ok l ∧ n ≠ 0 ∧ s.forced ≠ [] ∧
+      (s.forced.all (fun g => zeroMask ((g.2.take n).reverse) == zeroMask l)) = true :=
+  (ct_encLastValuesCT_ok' h).1
 
 theorem primSim_ct_dec (W rest : Bits) (L : Nat) :
     PrimSim encPrimsCT decPrimsC (IxED W rest) (RelCD L) where
@@ -1000,16 +1013,25 @@ theorem primSim_ct_dec (W rest : Bits) (L : Nat) :
   lastValues := by
     intro i s t n l ⟨_, _, _, _, hvals, hfl, hvl⟩ h
     change encLastValuesCT n s = .ok l at h
-    show ∃ l', decLastValues n t = .ok l' ∧ zeroMask l' = zeroMask l
-    obtain ⟨_, hn, hne, hall⟩ := ct_encLastValuesCT_ok h
-    unfold decLastValues
-    rw [hvals]
+    show ∃ l', decLastValuesC n t = .ok l' ∧ zeroMask l' = zeroMask l
+    obtain ⟨⟨_, hn, hne, hall⟩, hlit⟩ := ct_encLastValuesCT_ok' h
     cases hf : s.forced with
     | nil => exact absurd hf hne
     | cons g gs =>
       have := List.all_eq_true.mp hall g (by rw [hf]; simp)
-      simp only [List.map_cons, hn, if_false]
-      exact ⟨_, rfl, by simpa using this⟩
+      have hd : decLastValues n t = .ok ((g.2.take n).reverse) := by
+        unfold decLastValues
+        rw [hvals, hf]
+        simp only [List.map_cons, hn, if_false]
+      refine ⟨_, decLastValuesC_of hd (fun row hr => ?_), by simpa using this⟩
+      rw [hvals] at hr
+      obtain ⟨g', hg', rfl⟩ := List.mem_map.mp hr
+      have h1 := List.all_eq_true.mp hlit g' hg'
+      rw [hf] at h1
+      simp only [List.headD_cons, beq_iff_eq] at h1
+      rw [h1]
+      unfold lastSlice
+      rw [if_neg hn]
 
 /-! ### projection onto the CHECKED uncompressed encoder of one subset -/
 
@@ -1118,7 +1140,10 @@ theorem ct_encLastValuesCX_ok {s : St} {n : Nat} {l : List Val} (h : encLastValu
     rw [hv] at h
     simp only [bind, Except.bind, pure, Except.pure] at h
     split at h
-    · rename_i hall; cases h; exact ⟨rfl, hall⟩
+    · rename_i hall
+      split at h
+      · cases h; exact ⟨rfl, hall⟩
+      · cases h
     · cases h
 
 theorem primSim_ct_ux (k : Nat) : PrimSim₀ encPrimsCT encPrimsUX (RelProjT k) where
